@@ -69,7 +69,7 @@ def run_batch(item):
     sessions = item['sessions']
     out = {'sessions': [], 'alive': True}
     with World('rt') as w:
-        be = backend_layout(w, item.get('nshards', NSHARDS))
+        be = backend_layout(w, item.get('nshards', NSHARDS), item.get('replicas', 2))
         pools = {}
         names = {}
         for s in sessions:
